@@ -235,7 +235,7 @@ fn gen_requests(rng: &mut Rng, eps: &[Ep], n: usize) -> Vec<(String, String, Opt
         let method = match rng.below(10) {
             // methods no table holds: an extension method and two the framework might be
             // tempted to treat specially
-            0 => rng.pick(&["PATCH", "PATCH", "TRACE", "OPTIONS"]).to_string(),
+            0 => rng.pick(&["PATCH", "PATCH", "TRACE", "OPTIONS", "HEAD", "HEAD"]).to_string(),
             1 => rng.pick(METHODS).to_lowercase(),
             _ => {
                 if !eps.is_empty() && rng.chance(2, 3) {
